@@ -9,9 +9,10 @@ DM == INSTANCE DM
 Trace == ndJsonDeserialize("trace.ndjson")
 N == Len(Trace)
 
-VARIABLES l, bad, memo, seen
-vars == <<l, bad, memo, seen>>
-Init == l = 1 /\ bad = <<>> /\ memo = {} /\ seen = {}
+VARIABLES l, bad, memo, seen, rdv
+vars == <<l, bad, memo, seen, rdv>>
+None == [ok |-> FALSE, why |-> "none"]
+Init == l = 1 /\ bad = <<>> /\ memo = {} /\ seen = {} /\ rdv = None
 
 HasPx(e) == "px" \in DOMAIN e.res
 Known(e) == e.op = "encode" /\ e.sym = "dm"
@@ -31,10 +32,17 @@ EncodeTags(e, rd) ==
                        \o ContractTags(e, r.w, r.w, "DataMatrix", 2)
                        \o (IF \E x \in memo : x.k = PatternKey(e) /\ x.v # r.pxdigest THEN <<"pattern-depends-on-scheme-or-history">> ELSE <<>>)))
 
-Step ==
-  /\ l <= N
+\* Two steps per event: first the image is read (once; the reader's result becomes part of the state), then it is judged.
+NeedsRead(e) == Known(e) /\ e.res.kind = "ok" /\ HasPx(e)
+ReadStep ==
+  /\ l <= N /\ rdv = None /\ NeedsRead(Trace[l])
+  /\ rdv' = DM!Read(Trace[l].res.px)
+  /\ UNCHANGED <<l, bad, memo, seen>>
+JudgeStep ==
+  /\ l <= N /\ (rdv # None \/ ~NeedsRead(Trace[l]))
+  /\ rdv' = None
   /\ LET e == Trace[l]
-         rd == IF Known(e) /\ e.res.kind = "ok" /\ HasPx(e) THEN DM!Read(e.res.px) ELSE [ok |-> FALSE, why |-> "no-pixels"]
+         rd == IF rdv = None THEN [ok |-> FALSE, why |-> "no-pixels"] ELSE rdv
          t == IF Known(e) THEN EncodeTags(e, rd) ELSE <<"unknown-event">>
      IN /\ bad' = bad \o [i \in 1..Len(t) |-> [l |-> l, why |-> t[i]]]
         /\ memo' = IF Known(e) /\ e.res.kind = "ok" /\ HasPx(e) /\ ~\E x \in memo : x.k = PatternKey(e)
@@ -42,6 +50,7 @@ Step ==
         /\ seen' = IF rd.ok THEN seen \cup {<<rd.sizeidx, rd.corners, rd.fixed, rd.padded>>} ELSE seen
   /\ l' = l + 1
 
+Step == ReadStep \/ JudgeStep
 Spec == Init /\ [][Step]_vars
 MemoStable == [][memo \subseteq memo']_vars
 Done == l = N + 1 => JsonSerialize("verdict.json", [n |-> l - 1, bad |-> bad, seen |-> SetToSeq(seen)])
